@@ -43,7 +43,11 @@ type tcase struct {
 	Tpl    int     `json:"template"`
 	Mode   int     `json:"mode"`
 	Params []param `json:"params"`
-	Text   string  `json:"text,omitempty"`
+	// ExecModes (optional): the statement is prepared under Mode and then executed once per
+	// entry, the session's sql_mode being changed to that entry first (nil = one execute
+	// under Mode)
+	ExecModes []int  `json:"exec_modes,omitempty"`
+	Text      string `json:"text,omitempty"`
 }
 
 type template struct {
@@ -579,60 +583,117 @@ func typeClass(p param) string {
 	return "int"
 }
 
-var nEval, nExecuted, nRefused int64
+var nEval, nExecuted, nRefused, nHistories int64
 
+// historyClass names the shape of a case's sql_mode history (feature + coverage).
+func historyClass(c tcase) string {
+	if c.ExecModes == nil {
+		return "single"
+	}
+	cl := "same_mode"
+	if c.ExecModes[0] != c.Mode {
+		cl = "changed_after_prepare"
+	}
+	for i := 1; i < len(c.ExecModes); i++ {
+		if c.ExecModes[i] != c.ExecModes[i-1] {
+			if cl == "same_mode" {
+				cl = "changed_between_executes"
+			} else {
+				cl = "changed_after_prepare_and_between_executes"
+			}
+			break
+		}
+	}
+	return cl
+}
+
+// runCase: SET sql_mode (c.Mode) ; PREPARE ; then one execute per entry of c.ExecModes (nil =
+// one execute under c.Mode), each preceded by SET sql_mode if the mode differs from the one
+// in force. Every execute is judged under the mode in force when it is executed.
 func runCase(r *ev.Run, c tcase) {
 	atomic.AddInt64(&nEval, 1)
 	tpl := templates[c.Tpl]
 	rig := sessrig.Acquire()
 	defer sessrig.Release(rig)
 	s := rig.NewSession(false)
-	if modes[c.Mode] != "" {
-		if err := s.Query("set sql_mode='" + modes[c.Mode] + "'"); err != nil {
+	setMode := func(m int) {
+		if err := s.Query("set sql_mode='" + modes[m] + "'"); err != nil {
 			ev.Fatalf("harness: set sql_mode failed: %v", err)
 		}
+	}
+	if modes[c.Mode] != "" {
+		setMode(c.Mode)
 	}
 	resp := s.Cmd(mysql.ComStmtPrepare, []byte(tpl.sql))
 	id, count, _, ok := server.VerifStmtOf(resp)
 	if !ok || count != tpl.n {
 		ev.Fatalf("harness: prepare %q: ok=%v count=%d", tpl.sql, ok, count)
 	}
+	execModes := c.ExecModes
+	if execModes == nil {
+		execModes = []int{c.Mode}
+	} else {
+		atomic.AddInt64(&nHistories, 1)
+	}
+	hist := historyClass(c)
+	cur := c.Mode
+	for step, em := range execModes {
+		if em != cur {
+			setMode(em)
+			cur = em
+		}
+		if !runExecute(r, c, rig, s, id, step, em, hist) {
+			return
+		}
+	}
+	if c.ExecModes != nil {
+		r.Distinct("mode_histories", fmt.Sprintf("%d>%v", c.Mode, c.ExecModes))
+	}
+}
+
+// runExecute performs execute number step (0-based) of the case under sql_mode index em and
+// judges the statement that reaches the backend; false = stop this history.
+func runExecute(r *ev.Run, c tcase, rig *sessrig.Rig, s *sessrig.Session, id uint32, step, em int, hist string) bool {
+	tpl := templates[c.Tpl]
+	mode := modes[em]
+	before := len(rig.Backend.Log())
 	var resp2 server.Response
 	if p := ev.Catch(func() { resp2 = s.Cmd(mysql.ComStmtExecute, executePacket(id, c.Params)) }); p != nil {
 		// the session would be closed by Session.Run's recover: "the execute fails"
 		atomic.AddInt64(&nRefused, 1)
 		r.Distinct("refused", fmt.Sprint(p))
-		return
+		return false
 	}
-	log := rig.Backend.Log()
+	log := rig.Backend.Log()[before:]
 	if err := sessrig.RespErr(resp2); err != nil {
 		if len(log) != 0 {
 			r.Violation(ev.Witness{Summary: fmt.Sprintf("execute failed (%v) but the backend was sent %q", err, log[0].SQL),
-				Features: map[string]string{"kind": "failed_but_executed", "mode": modes[c.Mode]}, Case: c})
-			return
+				Features: map[string]string{"kind": "failed_but_executed", "mode": mode, "history": hist}, Case: c})
+			return false
 		}
 		atomic.AddInt64(&nRefused, 1)
 		r.Distinct("refused", err.Error())
-		return
+		return false
 	}
 	atomic.AddInt64(&nExecuted, 1)
 	if len(log) != 1 {
 		r.Violation(ev.Witness{Summary: fmt.Sprintf("execute of %q reached the backend %d times", tpl.sql, len(log)),
-			Features: map[string]string{"kind": "backend_count", "mode": modes[c.Mode]}, Case: c})
-		return
+			Features: map[string]string{"kind": "backend_count", "mode": mode, "history": hist}, Case: c})
+		return false
 	}
 	got := log[0].SQL
-	// the sql_mode the backend parses under is the one the proxy put on the connection
+	// the sql_mode the backend parses under is the one the proxy put on the connection for
+	// THIS execute; it must be the mode the session has in force now
 	applied := mylex.ParseMode(log[0].SQLMode)
-	if want := mylex.ParseMode(modes[c.Mode]); applied != want {
-		r.Violation(ev.Witness{Summary: fmt.Sprintf("session sql_mode %q but backend connection was given %q", modes[c.Mode], log[0].SQLMode),
-			Features: map[string]string{"kind": "sql_mode_not_applied", "mode": modes[c.Mode]}, Case: c})
-		return
+	if want := mylex.ParseMode(mode); applied != want {
+		r.Violation(ev.Witness{Summary: fmt.Sprintf("session sql_mode %q but backend connection was given %q", mode, log[0].SQLMode),
+			Features: map[string]string{"kind": "sql_mode_not_applied", "mode": mode, "history": hist}, Case: c})
+		return false
 	}
 	tt := mylex.Lex(tpl.sql, applied, false)
 	gt := mylex.Lex(got, applied, false)
 	fail := func(i int, kind, why string) {
-		feat := map[string]string{"kind": kind, "mode": modes[c.Mode], "ptype": "none", "value": "none", "detail": "none"}
+		feat := map[string]string{"kind": kind, "mode": mode, "ptype": "none", "value": "none", "detail": "none", "history": hist}
 		if i >= 0 {
 			p := c.Params[i]
 			feat["ptype"] = typeClass(p)
@@ -643,8 +704,12 @@ func runCase(r *ev.Run, c tcase) {
 			}
 		}
 		c.Text = got
-		r.Violation(ev.Witness{Summary: fmt.Sprintf("mode=%q %q bound to %v reaches the backend as %q: %s",
-			modes[c.Mode], tpl.sql, names(c.Params), got, why), Features: feat, Case: c})
+		where := ""
+		if c.ExecModes != nil {
+			where = fmt.Sprintf(" [prepared under %q, execute %d of modes %v]", modes[c.Mode], step+1, modeNames(c.ExecModes))
+		}
+		r.Violation(ev.Witness{Summary: fmt.Sprintf("mode=%q%s %q bound to %v reaches the backend as %q: %s",
+			mode, where, tpl.sql, names(c.Params), got, why), Features: feat, Case: c})
 	}
 	gi := 0
 	pi := 0
@@ -658,7 +723,7 @@ func runCase(r *ev.Run, c tcase) {
 					kind = "structure_changed"
 				}
 				fail(pi, kind, fmt.Sprintf("parameter %d: %s", pi, why))
-				return
+				return false
 			}
 			gi += n
 			pi++
@@ -671,21 +736,30 @@ func runCase(r *ev.Run, c tcase) {
 			}
 			// attribute to the parameter before this token
 			fail(pi-1, "structure_changed", fmt.Sprintf("after parameter %d the template continues with %q, the executed statement with %s", pi-1, t.Text, found))
-			return
+			return false
 		}
 		gi++
 	}
 	if gi != len(gt) {
 		fail(pi-1, "structure_changed", fmt.Sprintf("%d extra token(s) after the end of the template, first %s %q", len(gt)-gi, gt[gi].Kind, gt[gi].Text))
-		return
+		return false
 	}
 	// non-trivial: a bound value that needs quoting/escaping or a sign/exponent survived
 	for _, p := range c.Params {
 		if typeClass(p) == "string" && valueClass(unlenenc(p.Raw)) != "plain" {
-			r.Distinct("nontrivial", fmt.Sprintf("%d/%d/%s", c.Tpl, c.Mode, names(c.Params)))
+			r.Distinct("nontrivial", fmt.Sprintf("%d/%d/%v/%d/%s", c.Tpl, c.Mode, c.ExecModes, step, names(c.Params)))
 			break
 		}
 	}
+	return true
+}
+
+func modeNames(ms []int) []string {
+	var n []string
+	for _, m := range ms {
+		n = append(n, modes[m])
+	}
+	return n
 }
 
 func names(ps []param) string {
@@ -748,9 +822,40 @@ func main() {
 			cases = append(cases, tcase{Tpl: 3, Mode: m, Params: ps})
 		})
 	}
+	// sql_mode histories (added after seeded change c15-3 was missed): prepare under one mode,
+	// change the session's sql_mode, execute; change again, execute again. Every prepare mode x
+	// every sequence of 1..2 execute modes; one-parameter template with every mixed value,
+	// two-parameter template with every pair of the escape-relevant strings.
+	nBefore := len(cases)
+	var esc []param
+	for _, p := range mix {
+		if typeClass(p) == "string" && valueClass(unlenenc(p.Raw)) != "plain" {
+			esc = append(esc, p)
+		}
+	}
+	for pm := range modes {
+		var seqs [][]int
+		for e1 := range modes {
+			seqs = append(seqs, []int{e1})
+			for e2 := range modes {
+				seqs = append(seqs, []int{e1, e2})
+			}
+		}
+		for _, sq := range seqs {
+			for _, a := range mix {
+				cases = append(cases, tcase{Tpl: 0, Mode: pm, Params: []param{a}, ExecModes: sq})
+			}
+			for _, a := range esc {
+				for _, b := range esc {
+					cases = append(cases, tcase{Tpl: 1, Mode: pm, Params: []param{a, b}, ExecModes: sq})
+				}
+			}
+		}
+	}
+	r.Set("mode_history_cases", len(cases)-nBefore)
 	r.Set("universe", len(cases))
-	r.Set("bound", fmt.Sprintf("%d single-parameter values (all strings over a 10-byte alphabet up to length 3 as VAR_STRING and BLOB, lengths 0 and 300, every string-like type code, integer extremes of every width/signedness, floats incl. NaN/Inf, DATE/DATETIME/TIMESTAMP/TIME of every legal length, NULL three ways) x %d sql_modes; %d mixed values in 2-, 3- (x %d LIMIT values) and 4-parameter templates (4 parameters: <=%d deviations from the default)",
-		len(single), len(modes), len(mix), len(lim), r.Pick(2, 4)))
+	r.Set("bound", fmt.Sprintf("%d single-parameter values (all strings over a 10-byte alphabet up to length 3 as VAR_STRING and BLOB, lengths 0 and 300, every string-like type code, integer extremes of every width/signedness, floats incl. NaN/Inf, DATE/DATETIME/TIMESTAMP/TIME of every legal length, NULL three ways) x %d sql_modes; %d mixed values in 2-, 3- (x %d LIMIT values) and 4-parameter templates (4 parameters: <=%d deviations from the default); sql_mode histories: %d prepare modes x every sequence of 1..2 execute modes (SET sql_mode between PREPARE and EXECUTE and between two EXECUTEs), 1-parameter template x %d mixed values and 2-parameter template x %d^2 escape-relevant strings (%d history cases)",
+		len(single), len(modes), len(mix), len(lim), r.Pick(2, 4), len(modes), len(mix), len(esc), len(cases)-nBefore))
 	done := enum.Parallel(len(cases), r.TimeUp, func(i int) {
 		runCase(r, cases[i])
 		if i%(len(cases)/7+1) == 5 {
@@ -763,10 +868,11 @@ func main() {
 	r.Set("evaluations", nEval)
 	r.Set("executed", nExecuted)
 	r.Set("refused", nRefused)
+	r.Set("histories_run", nHistories)
 	if nExecuted == 0 {
 		ev.Fatalf("vacuous run: nothing executed")
 	}
-	r.Set("rule", "case = (template with 1-4 placeholders, session sql_mode, one value per placeholder); executed through prepare + COM_STMT_EXECUTE on a real session; judged on the text the fake backend receives, lexed by ref/mylex under the sql_mode the proxy applied. distinct_nontrivial = distinct passing cases in which at least one bound string contains a quote or a backslash (the literal had to be escaped and still denotes the value)")
+	r.Set("rule", "case = (template with 1-4 placeholders, session sql_mode, one value per placeholder) or a history (sql_mode at PREPARE, then 1-2 EXECUTEs each under a possibly different sql_mode set in between); executed through prepare + COM_STMT_EXECUTE on a real session; every execute is judged on the text the fake backend receives, lexed by ref/mylex under the sql_mode the proxy applied. distinct_nontrivial = distinct passing cases in which at least one bound string contains a quote or a backslash (the literal had to be escaped and still denotes the value)")
 	r.Assume("ref/mylex implements MySQL's string-literal rules (backslash escapes unless NO_BACKSLASH_ESCAPES, doubled quotes, ANSI_QUOTES); connection charset without 0x5c/0x27 trail bytes")
 	r.Assume("the backend parses under the sql_mode the proxy hands to PooledConnect.SetSessionVariables (checked to equal the session's sql_mode)")
 	r.Assume("float parameters: the literal must round-trip at the parameter's own precision (float32 / float64); DECIMAL and other length-encoded types are text on the wire and must arrive as a string literal with the same bytes")
